@@ -58,9 +58,12 @@ package socket
 //@   property C20
 //@   ensures[like-new] len(settings) == 0 ==> istype(result, type(*message)) && freshMsg(as(result, type(*message)))
 
+// ghost.msgPuts: how many messages were handed back to the message pool
+//@ ghost global msgPuts int
 //@ func PutMessage
 //@   property C20
 //@   requires istype(m, type(*message)) && as(m, type(*message)).meta != nil && as(m, type(*message)).xferPipe != nil
+//@   ghostset ghost.msgPuts = old(ghost.msgPuts) + 1
 
 // ---- C20: pooled sockets ---------------------------------------------------
 
@@ -170,7 +173,11 @@ package socket
 //@   flags libframe
 
 //@ func (*rawProto).readHeader
-//@   property C15 C04
+//@   property C15 C04 C01
+// C01: the service method kept in the message owns its bytes - it is not a zero-copy
+// view of the frame buffer, which goes back to the pool when Unpack returns and is
+// overwritten by the next frame while handlers still read the name
+//@   ensures[service-method-owns-its-bytes] @C01 result.1 == nil ==> !zeroCopy(hm.serviceMethod)
 //@   flags libframe
 //@   let hm = as(m, type(*message))
 //@   modifies hm.seq, hm.mtype, hm.serviceMethod, hm.status, hm.status.#fromWire, fields(hm.meta), allelems(type(utils.argsKV))
